@@ -457,7 +457,14 @@ class EventManager(MpfController):
                                                              _future=future,
                                                              _keys=keys,
                                                              event=event_name)))
+        # nobody is waiting any more once the future got cancelled
+        future.add_done_callback(partial(self._remove_wait_handlers, keys))
         return future
+
+    def _remove_wait_handlers(self, keys: List[EventHandlerKey], future: asyncio.Future):
+        """Remove the handlers of a wait future which has been cancelled."""
+        if future.cancelled():
+            self.remove_handlers_by_keys(keys)
 
     def _wait_handler(self, _future: asyncio.Future, _keys: List[EventHandlerKey], **kwargs):
         for key in _keys:
